@@ -30,6 +30,7 @@ LEVEL_TEXT = (
     "probe (columns kept, locked nodes kept); generated materializations are compared on content."
     "  The program is chained with its twin-leaf copy in both orders: every locked node of either operand must be in "
     "the result as the identical object."
+    "  Iteration-rooted programs are pinned in the other iteration engine by a user-defined marker that declares itself locked, then sent back / refined with the original engine preferred: the pinned node must stay in the result as that object."
 )
 LEVEL_NOTE = "trusts: names are unique per case (harness-chosen), ev_multi labels, harness Processor for executing multi-engine results; Processor.process itself is excluded (it re-creates markers by design)"
 RULE = (
@@ -185,6 +186,89 @@ def roundtrip_temporaries(env, leaves, stats):
                         raise Violation("transfer-ill-formed", f"[{bad[0]}] {bad[1]}; produced by Engine.transfer(round trip of {own.name}, payload=...)")
                 del tmp, back, forced
                 stats.c["roundtrip-temporaries"] += 1
+
+
+_PIN = None
+
+
+def pin_marker():
+    """A user-defined marker that declares itself locked (MarkerRelation.is_locked is an overridable property: 'this
+    relation and those upstream of it should be considered fixed by tree-manipulation algorithms')."""
+    global _PIN
+    if _PIN is None:
+        import dataclasses as _dc
+
+        from lsst.daf.relation import MarkerRelation
+
+        @_dc.dataclass(frozen=True)
+        class Pin(MarkerRelation):
+            @property
+            def is_locked(self):
+                return True
+
+            def __str__(self):
+                return f"pin({self.target})"
+
+        _PIN = Pin
+    return _PIN
+
+
+def locked_marker_probe(prog, leaves, env, stats):
+    """Only *unlocked* markers are crossed when a transfer goes straight back: the program's root (iteration engine X) is
+    sent to the other iteration engine, pinned there by a locked user-defined marker, and sent back / refined with X as
+    preferred engine.  The pinned node must be in the result as that object, with the original rows in the requested engine."""
+    from lsst.daf.relation import ColumnError, ColumnExpression, EngineError
+
+    from vf.core.prog import build_all, ev_list, OutOfDomain
+    from vf.core.tags import sorted_tags
+
+    try:
+        expected = ev_list(prog, leaves, check_fd=False)
+        root = build_all(prog, env)[id(prog)]
+    except (BuildError, OutOfDomain, Exception):
+        return
+    X = root.engine
+    others = [e for e in env.engines[1:] if e is not X]
+    if not others or X is env.sql:
+        return
+    Y = others[0]
+    try:
+        pinned = pin_marker()(target=root.transferred_to(Y))
+    except Exception:
+        return
+    cols = sorted_tags(root.columns)
+    calls = [("transferred_to(X)", lambda: pinned.transferred_to(X), expected)]
+    if cols:
+        ref = ColumnExpression.reference(cols[0])
+        calls.append(
+            (
+                "with_rows_satisfying(c >= 0, preferred_engine=X, transfer=True)",
+                lambda: pinned.with_rows_satisfying(ref.ge(ColumnExpression.literal(0)), preferred_engine=X, transfer=True),
+                [r for r in expected if r[cols[0]] >= 0],
+            )
+        )
+    for what, call, exp in calls:
+        try:
+            res = call()
+        except (ColumnError, EngineError):
+            stats.c["pin:refused"] += 1
+            continue
+        except Exception as e:
+            raise Violation("call-raised", f"{what} on a locked user-defined marker over {fmt(prog, leaves)}: {type(e).__name__}: {e}", sig=exc_sig(e))
+        if not any(n is pinned for n in lib_nodes(res)):
+            raise Violation("locked-node-rewritten", f"{what}: the locked user-defined marker is not in the result (as that object): {str(res)[:300]}; pinned {str(pinned)[:200]}", node_kind="pin")
+        if res.engine is not X:
+            raise Violation("wrong-engine", f"{what}: result lives in {res.engine}, not in the requested engine; {str(res)[:200]}")
+        if any(engine_of(n, leaves) == 0 for n in walk(prog)):
+            stats.c["pin:checked-structure-only"] += 1
+            continue  # a SQL part upstream: rows need a Processor and have no promised order (content is C03 / C07)
+        try:
+            got = env.run_iter(res)
+        except Exception as e:
+            raise Violation("call-raised", f"executing the result of {what}: {type(e).__name__}: {e}; tree {str(res)[:300]}", sig=exc_sig(e))
+        if got != exp:
+            raise Violation("content-changed", f"{what} over {fmt(prog, leaves)}: expected {exp} got {got}; tree {str(res)[:300]}")
+        stats.c["pin:checked"] += 1
 
 
 def run_case(case, stats):
@@ -397,6 +481,8 @@ def run_case(case, stats):
             finally:
                 tw.close_tables()
             ks = kinds(prog)
+            if engine_of(prog, leaves) != 0:
+                locked_marker_probe(prog, leaves, env, stats)
             if nontrivial or ("mat" in ks and "xfer" in ks):
                 stats.mark_nontrivial(codec.digest(case), lambda: describe(case), cls="prog/" + "+".join(sorted(set(ks) & {"mat", "xfer", "join", "chain"})))
         finally:
